@@ -34,7 +34,7 @@
 From Coq Require Import List NArith ZArith QArith Reals Lra.
 From D3 Require Import Base.Ops Base.Vec Base.RVec Spec.Convex Spec.ConvexHull
   Model.Simplex Model.SimplexOrig Model.SimplexRun Checker.Kkt Checker.KktZ
-  Proofs.SimplexLine Proofs.SimplexTriangle Proofs.SimplexTetra Proofs.SimplexCara Proofs.SimplexTetraFlat Proofs.SimplexCollinear Proofs.SimplexOrig Proofs.SimplexOrigCand Proofs.SimplexOrigFace Proofs.SimplexOrigTetra Proofs.SimplexLattice
+  Proofs.SimplexLine Proofs.SimplexTriangle Proofs.SimplexTetra Proofs.SimplexCara Proofs.SimplexTetraFlat Proofs.SimplexCollinear Proofs.SimplexTetraFlatEps Proofs.SimplexOrig Proofs.SimplexOrigCand Proofs.SimplexOrigFace Proofs.SimplexOrigTetra Proofs.SimplexLattice
   Proofs.SimplexLattice4 Proofs.SimplexRefuted.
 Import ListNotations.
 Local Open Scope R_scope.
@@ -208,6 +208,18 @@ Example C18_jolt_tetra_flat_nonvacuous :
   1 <= dot (cross (vsub d a) (vsub b a)) (cross (vsub d a) (vsub b a)) /\
   1 <= dot (cross (vsub d b) (vsub c b)) (cross (vsub d b) (vsub c b)).
 Proof. cbv zeta. unfold V6. vunfold. cbn [vx vy vz]. repeat split; lra. Qed.
+
+(** flat tetrahedron whose faces are each non-degenerate or exactly collinear (duplicates,
+    collinear triples): within EPSILON of the minimum over the hull *)
+Theorem C18_jolt_tetra_flat_eps_partial : forall a b c d : V3R,
+  V6 a b c d = 0 ->
+  face_ok a b c -> face_ok a c d -> face_ok a d b -> face_ok b d c ->
+  dot a a < maxf -> dot b b < maxf -> dot c c < maxf -> dot d d < maxf ->
+  let r := @closest_point_tetrahedron R ROps a b c d in
+  conv_hull (update_simplex_y [a; b; c; d] 4 (snd r)) (fst r) /\ conv_hull [a; b; c; d] (fst r) /\
+  forall x, conv_hull [a; b; c; d] x -> norm (fst r) <= norm x + eps.
+Proof. exact jolt_tetra_flat_eps. Qed.
+Print Assumptions C18_jolt_tetra_flat_eps_partial.
 
 (** Caratheodory for four affinely dependent points of space *)
 Theorem C18_flat_hull_faces : forall a b c d x : V3R,
